@@ -110,10 +110,67 @@ def _portfolio(timeout_s):
     ]
 
 
-def solve_text(text_full, text_qf, timeout_s, tmpdir, want_model=False):
+def _race(cmds, text, timeout_s, tmpdir):
+    """run several solver configurations on the same text at once; first `unsat` (any) or `sat` (primary) wins, the others are killed"""
+    fd, path = tempfile.mkstemp(suffix=".smt2", dir=tmpdir)
+    with os.fdopen(fd, "w") as f:
+        f.write(text)
+    fd2, path2 = tempfile.mkstemp(suffix=".smt2", dir=tmpdir)
+    with os.fdopen(fd2, "w") as f:
+        f.write("(set-logic ALL)\n" + text)  # cvc5 wants a logic line; z3 gets the text as it is
+    procs = []
+    t0 = time.time()
+    try:
+        for name, cmd in cmds:
+            procs.append((name, subprocess.Popen(cmd + [path2 if name == "cvc5" else path], stdout=subprocess.PIPE, stderr=subprocess.STDOUT, text=True)))
+        notes = []
+        pending = list(procs)
+        while pending and time.time() - t0 < timeout_s + 3:
+            for name, p in list(pending):
+                if p.poll() is None:
+                    continue
+                pending.remove((name, p))
+                out = p.stdout.read() or ""
+                first = next((ln.strip() for ln in out.splitlines() if ln.strip() in ("sat", "unsat", "unknown", "timeout")), "error")
+                if first == "unsat":
+                    return "unsat", name, time.time() - t0, None
+                if first == "sat" and name == "z3":
+                    return "sat", name, time.time() - t0, out[:6000]
+                notes.append(f"{name}: {first}")
+            time.sleep(0.05)
+        notes += [f"{name}: hard timeout" for name, _ in pending]
+        return "unknown", "portfolio", time.time() - t0, "; ".join(notes)
+    finally:
+        for _, p in procs:
+            if p.poll() is None:
+                p.kill()
+            try:
+                p.stdout.close()
+            except Exception:  # noqa: BLE001
+                pass
+            p.wait()
+        for pth in (path, path2):
+            try:
+                os.unlink(pth)
+            except OSError:
+                pass
+
+
+def solve_text(text_full, text_qf, timeout_s, tmpdir, want_model=False, race=False):
     """-> (verdict, backend, seconds, raw)"""
     t0 = time.time()
     notes = []
+    if race:
+        cmds = []
+        if text_qf is not None:
+            r, out, dt = _run([Z3NEW, f"-T:{max(1, int(timeout_s) // 3)}"], text_qf, timeout_s // 3 + 1, tmpdir)
+            if r == "unsat":
+                return "unsat", "z3(qf-hyps)", time.time() - t0, None
+        cmds = list(_portfolio(timeout_s))
+        if os.path.exists(CVC5):
+            cmds.append(("cvc5", [CVC5, "--strings-exp", f"--tlimit={int(timeout_s) * 1000}"]))
+        v = _race(cmds, text_full + ("\n(get-model)\n" if want_model else ""), timeout_s, tmpdir)
+        return v[0], v[1], time.time() - t0, v[3]
     # stage 1: quantifier-free hypotheses only (sound: fewer assumptions)
     if text_qf is not None:
         r, out, dt = _run([Z3NEW, f"-T:{max(1, int(timeout_s) // 3)}"], text_qf, timeout_s // 3 + 1, tmpdir)
@@ -148,6 +205,8 @@ def discharge(obligations, probes=None, timeout_ms=10000, jobs=None):
         return
     jobs = jobs or min(16, os.cpu_count() or 1)
     timeout_s = max(1, timeout_ms // 1000)
+    # few obligations (typically the escalation round): run the portfolio members side by side instead of one after the other
+    race = sum(1 for ob in obligations if not z3.is_true(ob.goal)) <= max(1, jobs // 4)
     tmpdir = tempfile.mkdtemp(prefix="pyvc_")
     try:
         whole = []
@@ -179,7 +238,7 @@ def discharge(obligations, probes=None, timeout_ms=10000, jobs=None):
             if obligations[i].expect_refuted:
                 r, out, dt = _run([Z3NEW, "-T:5"], full, 5, tmpdir)
                 return ("whole", i, None, ({"sat": "sat", "unsat": "unsat"}.get(r, "unknown"), "z3", dt, None))
-            res = solve_text(full, qf, timeout_s, tmpdir, want_model=True)
+            res = solve_text(full, qf, timeout_s, tmpdir, want_model=True, race=race)
             if res[0] in ("unsat", "sat"):
                 decided.setdefault(i, res[0])
             return ("whole", i, None, res)
